@@ -22,7 +22,7 @@ SimRoutes(s) == DistinctRoutes(s) \cup SharedRoutes(s)
 ScriptQ == {S(<<>>, "no"), S(<<"raw">>, "no"), S(<<"ok">>, "no")}
 ScriptsQ == [1..2 -> ScriptQ]
 \* broken runners (run() raises), 1..2 workers
-ScriptsB == { <<S(<<"raw">>, "base"), S(<<>>, "no")>>, <<S(<<>>, "exc"), S(<<"er">>, "no")>>, <<S(<<"raw">>, "exc")>>, <<S(<<>>, "exc"), S(<<>>, "exc")>> }
+ScriptsB == { <<S(<<"rawn", "rawt">>, "no"), S(<<>>, "no")>>, <<S(<<"raw">>, "base"), S(<<>>, "no")>>, <<S(<<>>, "exc"), S(<<"er">>, "no")>>, <<S(<<"raw">>, "exc")>>, <<S(<<>>, "exc"), S(<<>>, "exc")>> }
 \* workers sharing a route code
 ScriptsSh2 == [1..2 -> {S(<<>>, "no"), S(<<"ok">>, "no")}] \cup { <<S(<<"raw">>, "no"), S(<<>>, "no")>> }
 ScriptsSh3 == { <<S(<<>>, "no"), S(<<>>, "no"), S(<<"ok">>, "no")>> }
@@ -36,7 +36,7 @@ Scripts13 == [1..1 -> {S(<<"ok", "er", "raw">>, "no"), S(<<"ok", "er", "raw">>, 
              \cup { <<S(<<"ok", "raw">>, "no"), S(<<"er">>, "exc")>> }
 ScriptsXq == { <<S(<<"ok">>, "no")>> }
 ScriptsX == { <<S(<<"ok">>, "no")>>, <<S(<<>>, "no"), S(<<>>, "no")>> }
-ScriptsS == [1..3 -> ScriptQ \cup {S(<<"er", "raw">>, "no"), S(<<>>, "exc"), S(<<"raw">>, "exc")}] \cup [1..4 -> ScriptT \cup {S(<<>>, "exc")}]
+ScriptsS == [1..3 -> ScriptQ \cup {S(<<"rawn">>, "no"), S(<<"rawt", "ok">>, "no"), S(<<"er", "raw">>, "no"), S(<<>>, "exc"), S(<<"raw">>, "exc")}] \cup [1..4 -> ScriptT \cup {S(<<>>, "exc")}]
 
 NoFaults(s) == {<<NoFault, NoFault, NoFault>>}
 OneFault(s) == {<<NoFault, NoFault, NoFault>>} \cup {<<k, NoFault, NoFault>> : k \in 0..Len(s)}
